@@ -35,6 +35,10 @@ class World:
         self.cert_after = self.ca.issue(subj, T0 + 1, T0 + 100000, 'after')        # starts one second after
         self.cert_absent = self.ca.issue(subj, T0 - 100000, T0 + 100000, 'absent')  # not listed in the publications file
         self.cert_ec = self.ca.issue(subj, T0 - 100000, T0 + 100000, 'ec', ec=True)            # ECDSA: an undecodable signature value makes OpenSSL report an error (-1), not a mismatch (0)
+        # validity dates from 2050 on are written as GeneralizedTime (four digit year) in a certificate: one certificate that is valid until 2059,
+        # one that only becomes valid in 2051
+        self.cert_far = self.ca.issue(subj, T0 - 100000, 2840000000, 'far')
+        self.cert_farafter = self.ca.issue(subj, 2556144000, 2840000000, 'farafter')
         self.pub_times = [T0 + 86400 * 15, T0 + 86400 * 45, T0 + 86400 * 75]
         # for publications files the context downloads itself (they are PKI-verified by the library, with today's clock inside OpenSSL)
         self.pf_signer = self.ca.issue('/C=EE/O=Guardtime AS/CN=pub.example/emailAddress=publications@guardtime.test', name='pfsigner')
@@ -82,7 +86,7 @@ def make_sig(rng, w, kind, work, t=T0, pub_time=None):
             cert = w.cert_ec
             sigval = sign_pubdata(cert, s.cal.pub_time + 1, root, work)     # well-formed ECDSA signature over other data
         else:
-            cert = {'ok': w.cert_ok, 'exact': w.cert_ok2, 'before': w.cert_before, 'after': w.cert_after, 'absent': w.cert_absent}[which]
+            cert = {'ok': w.cert_ok, 'exact': w.cert_ok2, 'before': w.cert_before, 'after': w.cert_after, 'absent': w.cert_absent, 'far': w.cert_far, 'farafter': w.cert_farafter}[which]
             sigval = sign_pubdata(cert, s.cal.pub_time, root, work)
         s.calauth = R.cal_auth_record(s.cal.pub_time, root, sigtype='1.2.840.113549.1.1.11', sigval=sigval, certid=cert.id)
         s.calauth_tuple = (s.cal.pub_time, root)
@@ -90,7 +94,7 @@ def make_sig(rng, w, kind, work, t=T0, pub_time=None):
 
 
 def build_pubfile(w, work, pubs):
-    recs = [hdr()] + [cert_rec(c) for c in (w.cert_ok, w.cert_ok2, w.cert_before, w.cert_after, w.cert_ec)] + [pub_rec(t, h) for t, h in sorted(pubs)]
+    recs = [hdr()] + [cert_rec(c) for c in (w.cert_ok, w.cert_ok2, w.cert_before, w.cert_after, w.cert_ec, w.cert_far, w.cert_farafter)] + [pub_rec(t, h) for t, h in sorted(pubs)]
     body = MAGIC + b''.join(x.enc() for x in recs)
     return body + sig_rec(w.cert_ok.pkcs7_detached(body, work)).enc()
 
@@ -247,7 +251,7 @@ def expect(policy, sc):
         which = kind.split(':')[1]
         if which == 'absent':
             return ('NA',)
-        if which in ('before', 'after'):
+        if which in ('before', 'after', 'farafter'):
             return ('FAIL', {'KEY-03'})
         if which in ('badsig', 'otherdata', 'ecjunk', 'ecother'):
             return ('FAIL', {'KEY-02'})
@@ -319,7 +323,7 @@ def worker(job, r):
     c('ctx 0')
     c('set_ext 0 ksi+http://ext.example/x anon %s' % key.decode())
     r.count('sessions_with_long_password' if len(key) > 64 else 'sessions_with_short_password')
-    kinds = ['nocal', 'cal', 'pub', 'auth:ok', 'auth:exact', 'auth:before', 'auth:after', 'auth:absent', 'auth:badsig', 'auth:otherdata', 'auth:ecok', 'auth:ecjunk', 'auth:ecother']
+    kinds = ['nocal', 'cal', 'pub', 'auth:ok', 'auth:exact', 'auth:before', 'auth:after', 'auth:far', 'auth:farafter', 'auth:absent', 'auth:badsig', 'auth:otherdata', 'auth:ecok', 'auth:ecjunk', 'auth:ecother']
     for i in range(n):
         kind = rng.choice(kinds)
         t = T0 if kind.startswith('auth') or rng.random() < 0.5 else rng.randrange(1400000000, 1600000000)
